@@ -21,6 +21,11 @@ dumps and io round trip of every conformer; ens[a:b:c] is exactly [ens[i] for i 
 of the list-slice rule, cross-checked against CPython's), each element a live view of its row, and a write through the
 elements of a slice lands in exactly those rows, once.
 
+Detached views: conformers obtained by routes that leave their ensemble referenced by nothing else (pickle of a conformer / a
+slice / the ensemble, deepcopy, copy + del, helper index / slice / list / next(iter()), io round trip, loads_mol2, ensemble of
+conformers), gc.collect(), then used as molecules (read, written through, dumped, stored, cloned, pickled again); every conformer
+read after every use, the copied-from ensemble compared; replayed by check_detached of Model/Ens.v.
+
 Slice sweep: every slice with start, stop in {None} u [-n-2, n+2] and step in {None, 1, 2, 3, -1, -2, -3, 0} of ensembles
 of n = 0..4 (thorough: 0..6) conformers is taken (and, for a part of them, written through).
 """
@@ -1196,6 +1201,220 @@ def sweep_plans(nmax, every):
     return plans
 
 
+# ------------------------------------------------------------------ DETACHED views
+# A conformer is a full molecule view of its row ALSO when it is the only thing the program still holds: restored from a pickle
+# (alone, as a slice, as an element of a pickled ensemble), deep-copied, shallow-copied, handed out by a helper whose ensemble was a
+# local (by index, slice, iteration, next(iter())), left behind by `del ens`, taken from an ensemble that was just loaded or
+# deserialised.  Every other family keeps each ensemble in World.E for its snapshots -- here NOTHING but the conformers is kept
+# (gc.collect() before use), and then they are used as molecules: read, written through, dumped, stored, cloned, serialised again.
+# Where the route copies (pickle, deepcopy) the original is kept and must not move.
+DETACH_ROUTES = ["pickle", "pickle", "pickle-slice", "pickle-slice", "deepcopy", "deepcopy", "copy-then-del-owner", "helper-index", "helper-index",
+                 "helper-slice", "helper-list", "helper-next", "del-owner", "pickle-ensemble-index", "io-roundtrip-index", "loads-mol2-index",
+                 "conformer-of-conformer-ensemble"]
+DETACH_USES = ["read", "translate", "set_coords", "set_charge_elem", "scale", "dump_xyz", "dump_mol2", "store", "clone", "pickle-again", "attrs"]
+DETACH_COPIES = ("pickle", "pickle-slice", "deepcopy", "pickle-ensemble-index")
+
+
+def gen_detached(rng, j):
+    a, n = rng.choice([1, 2, 2, 3]), rng.randint(1, 4)
+    base = 1000 * (j % 60) + 17
+    rows = [[[base + 100 * k + 10 * i + x for x in (1, 2, 3)] for i in range(a)] for k in range(n)]
+    chg = [[base + 100 * k + 10 * i + 7 for i in range(a)] for k in range(n)]
+    route = DETACH_ROUTES[j % len(DETACH_ROUTES)] if j < 3 * len(DETACH_ROUTES) else rng.choice(DETACH_ROUTES)
+    if route in ("pickle-slice", "helper-slice"):
+        lo = rng.randrange(n)
+        pick = [lo, rng.randint(lo + 1, n), rng.choice([None, 1, 1, 2])]
+        if rng.random() < 0.2:
+            pick = [None, None, -1]
+    elif route == "helper-list":
+        pick = None
+    elif route == "helper-next":
+        pick = 0
+    else:
+        pick = rng.randrange(n) - (n if rng.random() < 0.25 else 0)
+    uses = []
+    for _ in range(rng.randint(2, 5)):
+        u = rng.choice(DETACH_USES)
+        if u == "translate":
+            uses.append([u, small_vec(rng)])
+        elif u == "set_coords":
+            uses.append([u, [[base + 50000 + 10 * i + x + 1000 * len(uses) for x in (1, 2, 3)] for i in range(a)]])
+        elif u == "set_charge_elem":
+            uses.append([u, rng.randrange(a), base + 70000 + len(uses)])
+        elif u == "scale":
+            if not any(x[0] == "scale" for x in uses):              # once: the numbers stay exact in the '>f4' buffers of the codec
+                uses.append([u, rng.choice([2, 3, 5])])
+        else:
+            uses.append([u])
+    uses.append(["read"])
+    return {"na": a, "rows": rows, "charges": chg, "route": route, "pick": pick, "uses": uses}
+
+
+def _detached_build(spec):
+    import numpy as np
+    import molli as ml
+    from molli.chem import Atom
+    ms = []
+    for r, q in zip(spec["rows"], spec["charges"]):
+        m = ml.Molecule([Atom(ELS[i % len(ELS)]) for i in range(spec["na"])], n_atoms=spec["na"], name="m",
+                        coords=np.array(r, dtype=float).reshape(spec["na"], 3), atomic_charges=np.array(q, dtype=float))
+        if spec["na"] >= 2:
+            m.connect(0, 1)
+        ms.append(m)
+    return ml.ConformerEnsemble(ms, name="ens")
+
+
+def _detached_obtain(spec):
+    """-> (conformers, their row numbers, the original ensemble when the route copies, else None).  Whatever else was built here
+    is a local and gone when this returns."""
+    import pickle, copy
+    import molli as ml
+    route, pick, n = spec["route"], spec["pick"], len(spec["rows"])
+    e = _detached_build(spec)
+    if route in ("pickle-slice", "helper-slice"):
+        sl = slice(*pick)
+        ks = list(range(n))[sl]
+        cs = e[sl]
+        if route == "pickle-slice":
+            return list(pickle.loads(pickle.dumps(cs))), ks, e
+        return list(cs), ks, None
+    if route == "helper-list":
+        return list(e), list(range(n)), None
+    if route == "helper-next":
+        return [next(iter(e))], [0], None
+    k = pick % n
+    if route == "pickle":
+        return [pickle.loads(pickle.dumps(e[pick]))], [k], e
+    if route == "deepcopy":
+        return [copy.deepcopy(e[pick])], [k], e
+    if route == "copy-then-del-owner":
+        c = copy.copy(e[pick])
+        del e
+        return [c], [k], None
+    if route == "del-owner":
+        c = e[pick]
+        del e
+        return [c], [k], None
+    if route == "pickle-ensemble-index":
+        return [pickle.loads(pickle.dumps(e))[pick]], [k], e
+    if route == "io-roundtrip-index":
+        import msgpack
+        from molli.chem.io import _serialize_ens_v2, _deserialize_ens_v2
+        return [_deserialize_ens_v2(msgpack.unpackb(msgpack.packb(_serialize_ens_v2(e), use_bin_type=True)))[pick]], [k], None
+    if route == "loads-mol2-index":
+        return [ml.ConformerEnsemble.loads_mol2(e.dumps_mol2())[pick]], [k], None
+    if route == "conformer-of-conformer-ensemble":
+        return [ml.ConformerEnsemble([e[j] for j in range(n)], name="ens2")[pick]], [k], None
+    return [e[pick]], [k], None                                  # helper-index
+
+
+def run_detached(spec):
+    """-> (findings [(sig, text)], observations for the Coq case: per use, per conformer (rows, charges) as read, or None)."""
+    import gc, pickle
+    import numpy as np
+    import molli as ml
+    route = spec["route"]
+    tag = f"C14:detached:{route}"
+    try:
+        cs, ks, orig = _detached_obtain(spec)
+    except Exception as ex:
+        return [(f"{tag}:obtain:raises:{type(ex).__name__}", f"obtaining conformer(s) {spec['pick']} by route {route!r} raised {type(ex).__name__}: {ex}")], None
+    gc.collect()
+    exp = [([list(r) for r in spec["rows"][k]], list(spec["charges"][k])) for k in ks]
+    orig_snap = (np.array(orig.coords, copy=True), np.array(orig.atomic_charges, copy=True)) if orig is not None else None
+    obs = []
+    if not all(isinstance(c, ml.chem.Conformer) for c in cs) or len(cs) != len(ks):
+        return [(f"{tag}:obtain:not-conformers", f"route {route!r} gave {[type(c).__name__ for c in cs]} for rows {ks}")], None
+    for un, u in enumerate(spec["uses"]):
+        t = un % len(cs) if cs else 0
+        for j, c in enumerate(cs):
+            if u[0] not in ("read", "dump_xyz", "dump_mol2", "store", "clone", "attrs") and j != t:
+                continue                                            # a write goes through ONE of the conformers; the others must not move
+            what = f"{u[0]} through the conformer of row {ks[j]} obtained by {route!r} ({spec['pick']}) of an ensemble of {len(spec['rows'])} x {spec['na']}, its ensemble referenced by nothing else"
+            try:
+                rows, chg = exp[j]
+                if u[0] == "translate":
+                    c.translate([float(x) for x in u[1]])
+                    exp[j] = ([[x + v for x, v in zip(r, u[1])] for r in rows], chg)
+                elif u[0] == "set_coords":
+                    c.coords = np.array(u[1], dtype=float).reshape(spec["na"], 3)
+                    exp[j] = ([list(r) for r in u[1]], chg)
+                elif u[0] == "set_charge_elem":
+                    c.atomic_charges[u[1]] = float(u[2])
+                    exp[j] = (rows, [u[2] if i == u[1] else q for i, q in enumerate(chg)])
+                elif u[0] == "scale":
+                    c.scale(float(u[1]))
+                    exp[j] = ([[x * u[1] for x in r] for r in rows], chg)
+                elif u[0] == "dump_xyz":
+                    if parse_xyz(c.dumps_xyz()) != [rows]:
+                        return [(f"{tag}:dump_xyz", f"{what}: the text does not hold the row")], obs
+                elif u[0] == "dump_mol2":
+                    b = parse_mol2(c.dumps_mol2())
+                    if b is None or [[(list(x), q) for x, q in blk] for blk in b] != [[(list(x), q) for x, q in zip(rows, chg)]]:
+                        return [(f"{tag}:dump_mol2", f"{what}: the text does not hold the row and its charges")], obs
+                elif u[0] == "store":
+                    import msgpack
+                    from molli.chem.io import _serialize_mol_v2, _deserialize_mol_v2
+                    m = _deserialize_mol_v2(msgpack.unpackb(msgpack.packb(_serialize_mol_v2(c), use_bin_type=True)))
+                    if [[tok(x) for x in r] for r in np.asarray(m.coords).tolist()] != rows or [tok(x) for x in np.asarray(m.atomic_charges).tolist()] != chg:
+                        return [(f"{tag}:store", f"{what}: the molecule codec does not give the row back")], obs
+                elif u[0] == "clone":
+                    m = ml.Molecule(c)
+                    if [[tok(x) for x in r] for r in np.asarray(m.coords).tolist()] != rows or m.n_atoms != spec["na"]:
+                        return [(f"{tag}:clone", f"{what}: Molecule(conformer) does not hold the row")], obs
+                elif u[0] == "pickle-again" and j == t:
+                    cs[j] = c = pickle.loads(pickle.dumps(c))
+                    gc.collect()
+                elif u[0] == "attrs":
+                    if (c.n_atoms, c.n_bonds, len(c.atoms), len(c.bonds)) != (spec["na"], 1 if spec["na"] >= 2 else 0, spec["na"], 1 if spec["na"] >= 2 else 0) \
+                            or not isinstance(c.name, str) or [a.element.symbol for a in c.atoms] != [ELS[i % len(ELS)] for i in range(spec["na"])]:
+                        return [(f"{tag}:attrs", f"{what}: n_atoms / n_bonds / atoms / bonds / name are not the ensemble's")], obs
+            except Exception as ex:
+                return [(f"{tag}:unusable:{type(ex).__name__}", f"{what}: raised {type(ex).__name__}: {ex}")], obs
+        # after every use: every conformer shows exactly its (expected) row; the original, where there is one, has not moved
+        seen = []
+        for j, c in enumerate(cs):
+            try:
+                got = ([[tok(x) for x in r] for r in np.asarray(c.coords).tolist()], [tok(x) for x in np.asarray(c.atomic_charges).tolist()])
+            except Exception as ex:
+                return [(f"{tag}:unusable:{type(ex).__name__}", f"after {u[0]}: reading the conformer of row {ks[j]} obtained by {route!r} "
+                         f"({spec['pick']}), its ensemble referenced by nothing else, raised {type(ex).__name__}: {ex}")], obs
+            seen.append(got)
+            if got != (exp[j][0], exp[j][1]):
+                return [(f"{tag}:view:{u[0]}", f"after {u[0]} (use {un}) the conformer of row {ks[j]} obtained by {route!r} ({spec['pick']}) shows "
+                         f"{got[0][:2]} / {got[1][:2]}, expected {exp[j][0][:2]} / {exp[j][1][:2]} (written value in its own row, other conformers untouched)")], obs
+        obs.append(seen)
+        if orig is not None and not (same(np, orig.coords, orig_snap[0]) and same(np, orig.atomic_charges, orig_snap[1])):
+            return [(f"{tag}:original-moved:{u[0]}", f"{u[0]} through a conformer restored by {route!r} changed the ensemble it was copied from")], obs
+    return [], obs
+
+
+def detached_term(spec, obs):
+    """Coq case (Model/Ens.v dcase): the ensemble, the rows picked, the uses, and what every conformer showed after every use."""
+    n = len(spec["rows"])
+    if spec["route"] in ("pickle-slice", "helper-slice"):
+        ks = list(range(n))[slice(*spec["pick"])]
+    elif spec["route"] == "helper-list":
+        ks = list(range(n))
+    else:
+        ks = [spec["pick"] % n]
+    e = f"(mkEns {nat(spec['na'])} {cq_list(rows_t(c) for c in spec['rows'])} {cq_list(nums_t(q) for q in spec['charges'])} {nums_t([1] * n)})"
+    us = []
+    for u in spec["uses"]:
+        if u[0] == "translate":
+            us.append(f"(DTranslate {vec_t(u[1])})")
+        elif u[0] == "set_coords":
+            us.append(f"(DSetCoords {rows_t(u[1])})")
+        elif u[0] == "set_charge_elem":
+            us.append(f"(DSetChargeElem {zt(u[1])} ({num_t(u[2])}))")
+        elif u[0] == "scale":
+            us.append(f"(DScale {zt(u[1])})")
+        else:
+            us.append("DRead")
+    ob = cq_list(cq_list(f"({rows_t(c)}, {nums_t(q)})" for c, q in seen) for seen in obs)
+    return f"({e}, {cq_list(zt(k) for k in ks)}, {cq_list(us)}, {ob})"
+
+
 # ------------------------------------------------------------------ entry points
 def run(ctx, rep):
     rep.rule = ("histories of calls on ConformerEnsemble / Conformer starting from nothing: 4 directed regression histories; the slice sweep "
@@ -1205,7 +1424,12 @@ def run(ctx, rep):
                 "conformers, any number of interleaved iterators, conformer handles reused long after they were created); after every call: "
                 "raised?, return value, and every ensemble (n_atoms, coords, atomic_charges, weights) are recorded and replayed by the Coq "
                 "model; a history is non-trivial when at least one ensemble was resized or written and one value was read back through a "
-                "conformer, an iterator, a slice or a dump; distinct by operation list")
+                "conformer, an iterator, a slice or a dump; distinct by operation list; DETACHED family: 300 (1 200) ensembles of 1..4 x 1..3 built "
+                "inside a helper, one conformer / a slice / all conformers obtained by 14 routes that leave the ensemble referenced by nothing "
+                "else (pickle of a conformer, of a slice, of the ensemble; deepcopy; copy then del; helper index / slice / list / next(iter); "
+                "del; io round trip, loads_mol2, ensemble of conformers), gc.collect(), then 3..6 uses (read, translate, set coords, set one "
+                "charge, scale, dump xyz / mol2, molecule codec, Molecule(c), pickle again, atoms / bonds / name), every conformer read after "
+                "every use, the copied-from ensemble compared; replayed by check_detached of the Coq model")
     rep.trusted += ["harness/c14.py: driver, integer tokens <-> doubles, parsing the dumped xyz / mol2 text back into numbers, Coq literal emission",
                     "CPython 3.12 + numpy executing molli/chem/ensemble.py (and the Molecule / CartesianGeometry methods a Conformer inherits)",
                     "numpy semantics modelled, not verified: np.append on axis 0 = list append, a[k] = row view, a[:] = full-shape array = "
@@ -1258,6 +1482,30 @@ def run(ctx, rep):
             seen.add(sig)
             found = True
             rep.violate(sig, text + f" [step {stepi}]", {"kind": "history", "ops": done[:stepi + 1]})
+    # --- DETACHED views: conformers that outlive every other reference to their ensemble
+    dcases, dmeta, dseen = [], [], set()
+    for j in range(1200 if ctx.thorough else 300):
+        spec = gen_detached(rng, j)
+        fnd, obs = run_detached(spec)
+        rep.count("family:detached")
+        rep.count(f"detached:route={spec['route']}")
+        for u in spec["uses"]:
+            rep.count(f"detached:use={u[0]}")
+        rep.case(key="detached:" + json.dumps(spec, sort_keys=True), sample={"route": spec["route"], "pick": spec["pick"], "uses": [u[0] for u in spec["uses"]]})
+        for sig, text in fnd:
+            found = True
+            if sig not in dseen and len(dseen) < 12:             # one replayable witness per signature
+                dseen.add(sig)
+                rep.violate(sig, text, {"kind": "detached", "spec": spec})
+        if obs is not None and len(obs) == len(spec["uses"]):
+            dcases.append(detached_term(spec, obs))
+            dmeta.append(spec)
+    dbad = vlib.run_shards(ctx, rep, "c14d", HEADER, "check_detached", dcases, shard=150, timeout=600, case_type="dcase")
+    if dbad is None:
+        vlib.broken_obligation(rep, "corr_c14_detached", "a correspondence shard did not compile: " + json.dumps(rep.extra.get("shard_errors", ""))[-1500:], found)
+    elif dbad:
+        vlib.broken_obligation(rep, "corr_c14_detached", f"{len(dbad)} detached-view cases on which model and implementation disagree, first: "
+                               + json.dumps(dmeta[dbad[0]])[:1200], found)
     known = confirm_known()
     for sig, text, rp in known:
         rep.violate(sig, text, rp)
@@ -1292,6 +1540,11 @@ def replay(ctx, data):
         for sig, text, rp in confirm_known():
             if rp["which"] == data.get("which"):
                 out.append(vlib.Violation(sig, text))
+    elif data.get("kind") == "detached":
+        import warnings
+        warnings.simplefilter("ignore")
+        for sig, text in run_detached(data["spec"])[0]:
+            out.append(vlib.Violation(sig, text))
     elif data.get("kind") == "history":
         _, _, findings, _ = run_history(data["ops"], ctx.rng)
         seen = set()
